@@ -1,7 +1,7 @@
 ------------------------------ MODULE FsLockMC ------------------------------
 (* Exhaustive TLC runs of the lock protocol (all interleavings of the file-system calls). *)
 EXTENDS FsLock, TLC
-Cfg(n, s, m) == [n |-> n, stale |-> s, mortal |-> m]
+Cfg(n, s, m) == [n |-> n, stale |-> s, mortal |-> m, parent |-> FALSE]
 \* no stale lock can ever exist: nobody dies, no initial stale link
 ConfigsSafe2  == {Cfg(n, FALSE, FALSE) : n \in 1..2}
 ConfigsSafe3  == {Cfg(n, FALSE, FALSE) : n \in 1..3}
